@@ -123,6 +123,7 @@ def run_thorough(prop, pc, units, seed):
             bad = [v for v in vac if v not in failed] if r["status"] == "ok" else []
             out["vacuity"][u] = {"twins": len(vac), "failed_as_expected": len([v for v in vac if v in failed]), "status": r["status"]}
             out["vacuous"] += [f"{u}::{v}" for v in bad]
+    known0 = hqcheck.load_known()
     # mutants
     muts = []
     mfile = os.path.join(VERIF, "mutants.json")
@@ -152,8 +153,10 @@ def run_thorough(prop, pc, units, seed):
             und = []
             for u in m.get("units") or units:
                 r = _unit_json(u, repo=root)
-                if r["failures"]:
-                    killed_by += [f"{u}::{f['fn']}: {f['msg']}: {f['clause'][:100]}" for f in r["failures"]][:3]
+                # obligations that are listed findings fail with or without the mutation: they kill nothing
+                fl = [f for f in r["failures"] if not match_known(known0, prop, u, f, any_prop=True)]
+                if fl:
+                    killed_by += [f"{u}::{f['fn']}: {f['msg']}: {f['clause'][:100]}" for f in fl][:3]
                     break
                 if r["status"] != "ok":
                     und.append(f"{u}: {r['reason'][:150]}")
@@ -175,10 +178,41 @@ def run_thorough(prop, pc, units, seed):
     with concurrent.futures.ThreadPoolExecutor(max_workers=5) as ex:
         for r in ex.map(one, muts):
             out["mutants"].append(r)
+    # (d) harmless-refactoring audit: committed behaviour-preserving patches (harmless.json; written by blind agents, each compiles and
+    # passes the pinned tests) are applied to a scratch copy; no unit of the property may report a failing obligation for them
+    # (undecided = exit 2 is allowed). A hit is a false alarm of the machinery, reported here; it does not change the verdict on /repo.
+    out["harmless"] = []
+    hfile = os.path.join(VERIF, "harmless.json")
+    hp = [h for h in (json.load(open(hfile)).get("patches", []) if os.path.exists(hfile) else []) if set(h.get("units", [])) & set(units)]
+
+    def one_h(h):
+        root = tempfile.mkdtemp(prefix="hqharm.", dir=os.environ.get("VERIF_SCRATCH", "/var/tmp"))
+        try:
+            shutil.copytree(os.path.join(REPO, "crates"), os.path.join(root, "crates"))
+            pr = subprocess.run(["patch", "-p1", "-s", "-i", os.path.join(VERIF, h["patch"])], cwd=root, capture_output=True, text=True)
+            if pr.returncode != 0:
+                return {"id": h["id"], "result": "not-applicable (patch does not apply to the current tree)"}
+            alarms, und = [], []
+            for u in [x for x in h["units"] if x in units]:
+                r = _unit_json(u, repo=root)
+                fl = [f for f in r["failures"] if not match_known(known0, prop, u, f, any_prop=True)]
+                alarms += [f"{u}::{f['fn']}: {f['msg']}: {f['clause'][:100]}" for f in fl][:3]
+                if r["status"] != "ok":
+                    und.append(f"{u}: {r['reason'][:120]}")
+            return {"id": h["id"], "function": h.get("function"), "result": "FALSE-ALARM" if alarms else ("undecided" if und else "no alarm"), "by": alarms, "undecided": und}
+        finally:
+            shutil.rmtree(root, ignore_errors=True)
+
+    with concurrent.futures.ThreadPoolExecutor(max_workers=5) as ex:
+        for r in ex.map(one_h, hp):
+            out["harmless"].append(r)
+    out["false_alarms_on_harmless"] = [r["id"] for r in out["harmless"] if r["result"] == "FALSE-ALARM"]
     out["weak_contracts"] = [r["id"] for r in out["mutants"] if r["result"] == "SURVIVED"]
     out["mutants_killed"] = sum(1 for r in out["mutants"] if r["result"] == "killed")
     out["mutants_total"] = len(out["mutants"])
     print(f"{prop}: thorough: vacuity twins={sum(v['twins'] for v in out['vacuity'].values())} vacuous={out['vacuous']}")
+    print(f"{prop}: thorough: harmless refactorings={len(out['harmless'])} false_alarms={out['false_alarms_on_harmless']} "
+          f"undecided={[r['id'] for r in out['harmless'] if r['result'] == 'undecided']}")
     print(f"{prop}: thorough: stability runs={len(out['stability'])} unstable_units={out['unstable_units']} "
           f"mutants killed={out['mutants_killed']}/{out['mutants_total']} survived={out['weak_contracts']} "
           f"undecided={[r['id'] for r in out['mutants'] if r['result'] == 'undecided']}")
